@@ -61,10 +61,18 @@ CHECKS['C07'] = dict(
     note=_MP_NOTE, technique='TLA+ operational semantics + awaiting-read monitor, TLC over all executions, claims from the real analysis',
     design_ref='DESIGN.md sections 3.3, 5 (C07)', engine='tlc-minipy')
 CHECKS['C08'] = dict(
-    text=_MP_TEXT + 'spec/Activity.tla checks the dynamic clause: the cells read / rebound / unbound by each executed node are within '
+    text='Static clause: spec/Scoping.tla enumerates every chain of up to three nested scopes (function, lambda, class, '
+         'comprehension) with every menu of occurrences of a name (parameter, assignment kinds, import, def, del, use, global and '
+         'nonlocal declarations), decides legality and classifies the name per function by the language-reference rules; every '
+         'state is rendered to source and compared three ways: specification = symtable.symtable (model validation, exit 2) = '
+         'bound/globals/nonlocals/params/free sets of the real activity analysis. Dynamic clause: ' + _MP_TEXT +
+         'spec/Activity.tla checks: the cells read / rebound / unbound by each executed node are within '
          'the read / modified / deleted sets of the scope the real activity analysis attached to that node.',
-    note=_MP_NOTE + ' The static clause (bound/global/nonlocal/param/free sets vs. CPython symtable) is being added (Scoping.tla).',
-    technique='TLA+ operational semantics + per-step read/write monitor, TLC over all executions',
+    note=_MP_NOTE + ' Static clause: one name over chains of <=3 nested scopes and a fixed menu of occurrence sets (16k chains, '
+         'exhaustive for the menu); for the free-variable class the comparison is two-sided: a CPython closure variable must be '
+         'reported, and a name may additionally be reported as needed-from-outside only if the function subtree refers to it as '
+         'a module global; comprehension targets and except names are excepted as the property states.',
+    technique='TLA+ input-space model of Python scoping (validated against symtable) compared with activity; TLA+ semantics + per-step read/write monitor over all executions',
     design_ref='DESIGN.md sections 3.3, 5 (C08)', engine='tlc-minipy')
 
 CHECKS['C01'] = dict(
